@@ -47,6 +47,15 @@ func ZZ_C10_WriteStep() {
 		return
 	}
 	before := head.data[off]
+	// a status query (every REST GET of the replica, every snapshot) may have hit a
+	// failing read of revision.counter just before: it reports -1 and changes nothing
+	if zzNondetBool("status-query-with-failing-counter-read") {
+		zzCounterReadFails = true
+		v := r.GetRevisionCounter()
+		zzCounterReadFails = false
+		zzAssert(v == -1, "C10.failed-counter-read-not-reported-as-minus-one")
+		zzAssert(zzCell() == c0 && r.revisionCache == c0, "C10.failed-counter-read-changed-the-counter")
+	}
 	n, err := r.WriteAt(buf, off)
 	cell, cache := zzCell(), r.revisionCache
 	switch {
